@@ -81,10 +81,14 @@ var rsTop = []rsPat{
 var rsBlock = []rsPat{
 	{q(`if ‹C›.Value != nil { return nil }`), "value"},
 	{q(`if !‹C›.isEmpty() { return }`), "value"},
-	{q(`loader.visitRef(ref)`), "visit"},
+	{q(`key := "‹K› " + ref`), "key:own-kind"},
+	{q(`loader.visitRef(key)`), "visit"},
+	{q(`loader.visitRef(ref)`), "visit:textOnly"},
 	{q(`‹C›.Ref = ref`), "keepRef"},
-	{q(`defer loader.unvisitRef(ref, ‹C›.Value)`), "defer:unvisit"},
-	{q(`defer loader.unvisitRef(ref, ‹C›)`), "defer:unvisit"},
+	{q(`defer loader.unvisitRef(key, ‹C›.Value)`), "defer:unvisit"},
+	{q(`defer loader.unvisitRef(key, ‹C›)`), "defer:unvisit"},
+	{q(`defer loader.unvisitRef(ref, ‹C›.Value)`), "defer:unvisit:textOnly"},
+	{q(`defer loader.unvisitRef(ref, ‹C›)`), "defer:unvisit:textOnly"},
 }
 
 // the body of the backtrack callback
@@ -101,6 +105,7 @@ var rsSingle = []rsPat{
 	{q(`if documentPath, err = loader.loadSingleElementFromURI(ref, documentPath, &‹ID›); err != nil { return }`), "load:moves"},
 	{q(`if _, err = loader.loadSingleElementFromURI(ref, documentPath, &‹ID›); err != nil { return err }`), "load:stays"},
 	{q(`if _, err = loader.loadSingleElementFromURI(ref, documentPath, &‹ID›); err != nil { return }`), "load:stays"},
+	{q(`if ‹ID›.Ref != "" { if err = loader.resolve‹K›Ref(doc, &‹ID›, documentPath); err != nil { return } }`), "recurse:ifRef"},
 	{q(`‹C›.Value = &‹ID›`), "setValue"},
 	{q(`*‹C› = ‹ID›`), "setValue"},
 	{q(`‹C›.setRefPath(documentPath)`), "setRefPath:moved"},
@@ -192,6 +197,57 @@ func rsClassify(fset *token.FileSet, pats []rsPat, kind, comp string, stmts []as
 	}
 }
 
+// rsEntry: an exported entry point of the Loader — in source order: "reset" (a call of resetVisitedPathItemRefs that is
+// not inside an if), "resetIfNil" (inside one), "delegate:<Load…>" (a call of another exported entry point),
+// "internal:<name>" (the unexported loader method / ResolveRefsIn it hands the document to)
+func rsEntry(fset *token.FileSet, fd *ast.FuncDecl) rsRow {
+	r := rsRow{name: "entry:" + fd.Name.Name}
+	seen := map[string]bool{}
+	var visit func(n ast.Node, inIf bool)
+	visit = func(n ast.Node, inIf bool) {
+		ast.Inspect(n, func(n ast.Node) bool {
+			switch x := n.(type) {
+			case *ast.IfStmt:
+				if x.Init != nil {
+					visit(x.Init, inIf)
+				}
+				visit(x.Cond, inIf)
+				visit(x.Body, true)
+				if x.Else != nil {
+					visit(x.Else, true)
+				}
+				return false
+			case *ast.CallExpr:
+				se, ok := x.Fun.(*ast.SelectorExpr)
+				if !ok {
+					return true
+				}
+				if id, ok := se.X.(*ast.Ident); !ok || id.Name != "loader" {
+					return true
+				}
+				tok := ""
+				switch m := se.Sel.Name; {
+				case m == "resetVisitedPathItemRefs" && !inIf:
+					tok = "reset"
+				case m == "resetVisitedPathItemRefs":
+					tok = "resetIfNil"
+				case strings.HasPrefix(m, "Load") && ast.IsExported(m):
+					tok = "delegate:" + m
+				case m == "ResolveRefsIn" || m == "loadFromURIInternal" || m == "loadFromDataWithPathInternal":
+					tok = "internal:" + m
+				}
+				if tok != "" && !seen[tok] {
+					seen[tok] = true
+					r.steps = append(r.steps, tok)
+				}
+			}
+			return true
+		})
+	}
+	visit(fd.Body, false)
+	return r
+}
+
 func rsResolver(fset *token.FileSet, fd *ast.FuncDecl) rsRow {
 	name := fd.Name.Name
 	kind := rsShort(name)
@@ -222,7 +278,7 @@ func rsResolver(fset *token.FileSet, fd *ast.FuncDecl) rsRow {
 		is, isIf := st.(*ast.IfStmt)
 		t := rsText(fset, st)
 		switch {
-		case isIf && strings.HasPrefix(t, "if !loader.shouldVisitRef(ref, func(value any) {"):
+		case isIf && (strings.HasPrefix(t, "if !loader.shouldVisitRef(key, func(value any) {") || strings.HasPrefix(t, "if !loader.shouldVisitRef(ref, func(value any) {")):
 			// if !loader.shouldVisitRef(ref, func(value any) { CB }) { return nil }
 			ue, _ := is.Cond.(*ast.UnaryExpr)
 			var ce *ast.CallExpr
@@ -245,6 +301,9 @@ func rsResolver(fset *token.FileSet, fd *ast.FuncDecl) rsRow {
 			if !ok {
 				r.bad = "backtrack callback of unexpected shape at " + fset.Position(fl.Pos()).String() + ": " + strings.Join(parts, " ")
 				return r
+			}
+			if strings.HasPrefix(t, "if !loader.shouldVisitRef(ref,") {
+				tok += ":textOnly"
 			}
 			r.steps = append(r.steps, "shouldVisit:"+tok)
 		case isIf && rsText(fset, is.Cond) == "isSingleRefElement(ref)" && is.Init == nil:
@@ -285,6 +344,9 @@ func extractResolverSkeleton(repo string) (string, error) {
 		name := fd.Name.Name
 		if fd.Recv == nil && !rsFrozenText[name] && !rsFrozenHash[name] {
 			continue
+		}
+		if fd.Recv != nil && ast.IsExported(name) && (strings.HasPrefix(name, "Load") || name == "ResolveRefsIn") {
+			rows = append(rows, rsEntry(fset, fd))
 		}
 		switch {
 		case name == "ResolveRefsIn":
